@@ -294,6 +294,9 @@ fn paths(g: &Value, l: usize, lops: usize) {
         // DFS over component sequences following the graph
         let mut stack: Vec<(Vec<String>, Vec<String>)> = vec![(vec![], init)];
         while let Some((comps, st)) = stack.pop() {
+            if violations.len() >= 20 {
+                break;      // the verdict is settled; every further escaping name would only be acted on for nothing
+            }
             if !comps.is_empty() {
                 // expected native path: root / stack (pseudo-names "s" stand for the sibling's own components)
                 let mut exp = j.root.clone();
